@@ -566,7 +566,31 @@ func (s *scope) createInstance(descriptor *Descriptor) (any, error) {
 	}
 
 	s.setInstance(descriptor, key, instance)
+
+	// The other interfaces of the same registration share this instance
+	for _, alias := range descriptor.aliases {
+		if alias != descriptor {
+			s.shareInstance(alias, instanceKey{Type: alias.Type, Key: alias.Key, Group: alias.Group}, instance)
+		}
+	}
+
 	return instance, nil
+}
+
+// shareInstance caches an instance under a further identity without tracking
+// it for disposal a second time.
+func (s *scope) shareInstance(descriptor *Descriptor, key instanceKey, instance any) {
+	switch descriptor.Lifetime {
+	case Singleton:
+		s.rootProvider.singletons.Store(key, instance)
+		s.rootProvider.singletonKeysMu.Lock()
+		s.rootProvider.singletonKeys = append(s.rootProvider.singletonKeys, key)
+		s.rootProvider.singletonKeysMu.Unlock()
+	case Scoped:
+		s.instancesMu.Lock()
+		s.instances[key] = instance
+		s.instancesMu.Unlock()
+	}
 }
 
 // FromContext retrieves a Scope from the context.
